@@ -7,6 +7,7 @@
 -/
 import NPModel.Spec.Frame
 import NPModel.Impl.Dtype
+import NPModel.Impl.Names
 import NPModel.Refine.Samples
 namespace NP.Findings
 open NP
@@ -134,5 +135,17 @@ def isBaseLayer (layer : String) : Bool := layer == "base"
 theorem nest_named_base_is_taken_for_the_base_layer :
     isBaseLayer (layerOf ["base", "a"]) = true ∧ isBaseLayer (layerOf ["a"]) = true ∧
     isBaseLayer (layerOf ["n", "a"]) = false := by decide
+
+/-- **K11** (C14): the evaluator names a backtick-quoted part by pandas' cleaned identifier and
+    `_aliases` maps that identifier back to ONE original name (a Python dict: the pair recorded last
+    wins, `aliasLookup`).  Two sibling fields whose cleaned names coincide (`t (s)` / `t_(s)`) that
+    are BOTH named in one expression therefore resolve to the same field — whatever the cleaned
+    identifier and the two names are. -/
+theorem colliding_clean_names_resolve_to_the_last (c a b : List Char) :
+    aliasLookup [(c, a), (c, b)] c = b := by
+  simp [aliasLookup]
+
+example : aliasLookup [("t__LPAR_s_RPAR_".toList, "t (s)".toList), ("t__LPAR_s_RPAR_".toList, "t_(s)".toList)]
+    "t__LPAR_s_RPAR_".toList = "t_(s)".toList := by decide
 
 end NP.Findings
